@@ -63,6 +63,11 @@ class Job:
         self.validated = 0
         self.notes = []
         self.excluded = 0
+        # second solver: the first few solver-decided obligations of every job are re-decided by cvc5
+        self.xcheck_budget = 5 if os.environ.get('VERIF_TIER') == 'thorough' else 1
+        self.xchecked = 0
+        self.xcheck_disagree = 0
+        self.xcheck_inconclusive = 0
 
     # ---- solver access
     def _solve(self, formulas, timeout_ms=None):
@@ -94,6 +99,8 @@ class Job:
                 return 'trivial'
         self.n_nontrivial += 1
         r, s, dt = self._solve(list(assumptions) + [neg], timeout_ms)
+        if self.xcheck_budget > 0 and r in ('sat', 'unsat'):
+            self._crosscheck(s, r, name)
         self._sample(name, r, dt, len(neg.sexpr()) if len(self.samples) < 3 else 0)
         if r == 'unsat':
             self.n_discharged += 1
@@ -117,6 +124,39 @@ class Job:
             else:
                 self.n_optional_inconclusive += 1
         return r
+
+    def _crosscheck(self, solver, verdict, name):
+        """re-decide the same assertions with cvc5 (SMT-LIB2 dump of the z3 solver); a contradicting verdict is a harness error"""
+        try:
+            txt = solver.to_smt2()
+            if 'FloatingPoint' in txt or 'RoundingMode' in txt or len(txt) > 400000:
+                return
+            import cvc5
+            self.xcheck_budget -= 1
+            slv = cvc5.Solver()
+            slv.setOption('tlimit-per', '20000')
+            slv.setLogic('ALL')
+            sm = cvc5.SymbolManager(slv)
+            prs = cvc5.InputParser(slv, sm)
+            prs.setStringInput(cvc5.InputLanguage.SMT_LIB_2_6, txt, 'obligation')
+            res = None
+            while True:
+                cmd = prs.nextCommand()
+                if cmd.isNull():
+                    break
+                out = str(cmd.invoke(slv, sm)).strip()
+                if out in ('sat', 'unsat', 'unknown'):
+                    res = out
+            if res in ('sat', 'unsat'):
+                self.xchecked += 1
+                if res != verdict:
+                    self.xcheck_disagree += 1
+                    self.errors.append('solver disagreement on %s / %s: z3 %s, cvc5 %s' % (self.name, name, verdict, res))
+            else:
+                self.xcheck_inconclusive += 1
+        except Exception as e:  # noqa
+            self.xcheck_inconclusive += 1
+            self.notes.append('cvc5 cross-check not possible for %s: %s' % (name, str(e)[:120]))
 
     def twin(self, name, formulas, timeout_ms=None):
         """reachability / vacuity witness: the formulas must be satisfiable."""
@@ -167,7 +207,8 @@ class Job:
         return {k: getattr(self, k) for k in
                 ('name', 'config', 'n_obl', 'n_discharged', 'n_nontrivial', 'n_inconclusive',
                  'n_optional_inconclusive', 'twins_ok', 'twins_bad', 'cex', 'errors', 'samples',
-                 'paths', 'queries', 'solver_s', 'max_query_s', 'validated', 'notes', 'excluded')}
+                 'paths', 'queries', 'solver_s', 'max_query_s', 'validated', 'notes', 'excluded', 'xchecked', 'xcheck_disagree',
+                 'xcheck_inconclusive')}
 
 
 def model_to_dict(m):
@@ -287,7 +328,8 @@ def drive(mod, tier, seed, nproc=None):
     if hasattr(mod, 'postprocess') and results:
         results = mod.postprocess(results)
     tot = dict(n_obl=0, n_discharged=0, n_nontrivial=0, n_inconclusive=0, n_optional_inconclusive=0,
-               twins_ok=0, twins_bad=0, paths=0, queries=0, solver_s=0.0, validated=0, excluded=0)
+               twins_ok=0, twins_bad=0, paths=0, queries=0, solver_s=0.0, validated=0, excluded=0, xchecked=0, xcheck_disagree=0,
+               xcheck_inconclusive=0)
     max_q = 0.0
     samples = []
     cexs = []
@@ -386,6 +428,10 @@ def drive(mod, tier, seed, nproc=None):
         'solver': {'name': 'z3', 'version': _z3_version(), 'total_s': round(tot['solver_s'], 2),
                    'max_query_s': round(max_q, 2)},
         'twins_refuted': tot['twins_ok'],
+        'second_solver': {'name': 'cvc5', 'version': _cvc5_version(), 'obligations_rechecked': tot['xchecked'],
+                          'disagreements': tot['xcheck_disagree'], 'inconclusive_or_skipped': tot['xcheck_inconclusive'],
+                          'rule': 'the first solver-decided obligation(s) of every job (1 quick / 5 thorough), dumped as SMT-LIB2 and '
+                                  're-decided by cvc5 under a 20 s limit; floating-point queries are skipped'},
         'trace_validation_points': tot['validated'] + int(pre.get('validated', 0)),
         'excluded_configurations': tot['excluded'],
         'functions_encoded': meta.get('functions_encoded', []),
@@ -429,6 +475,14 @@ def drive(mod, tier, seed, nproc=None):
         return EXIT_HARNESS
     print('OK %s' % prop, flush=True)
     return EXIT_OK
+
+
+def _cvc5_version():
+    try:
+        import cvc5
+        return getattr(cvc5, '__version__', 'unknown')
+    except Exception:  # noqa
+        return 'unavailable'
 
 
 def _z3_version():
